@@ -950,7 +950,7 @@ class C04(Spec):
     trusted = [
         "max(iterable, key=) / min(iterable, key=) return an element of their non-empty argument (assumed contract of the built-ins); itertools.chain concatenates",
         "error objects in best_match are an abstract model (membership in the context closure, context emptiness, context-tree height); the real ValidationError fields are handled in create_from/_contents",
-        "repeatability: the entry points are functions of (schema, instance) in the encoding and modify nothing observable (C07), hence repeating a call gives identical results",
+        "repeatability: the entry points are functions of (schema, instance) in the encoding; the scope stack is restored on every exit (X obligations, included here); that nothing else observable is modified is C07's write frame",
     ]
     assumptions = ["module validate is verified with cls given explicitly and with cls taken from validator_for (whose contract is C20's)",
                    "check_schema's callee contract is exactly check_schema(schema)"]
@@ -958,13 +958,17 @@ class C04(Spec):
 
     def tasks(self, root, tier):
         from contracts import tasks_entry
-        return tasks_core.core_tasks(root, _tmo(tier), which=("is_valid", "validate")) + tasks_entry.entry_tasks(root, _tmo(tier))
+        # the agreement is claimed for one validator object across calls: is_valid / validate() stop at the
+        # first error, so the exit-path obligations (scope stack restored on every exit, incl. GeneratorExit)
+        # carry the property between calls and are part of this check
+        return (tasks_core.core_tasks(root, _tmo(tier), which=("is_valid", "validate", "iter_errors_x", "ref_x")) +
+                [tasks_core.CoreTask(root, 7, "scope_cm_x", _tmo(tier))] + tasks_entry.entry_tasks(root, _tmo(tier)))
 
     def select(self, ob, r):
-        return ob["kind"] in ("F", "P", "L", "S")
+        return ob["kind"] in ("F", "P", "L", "S", "X")
 
     def failure_kinds(self):
-        return ("E",)
+        return ("E", "H")
 
     def table_obligations(self, repo, tabs):
         w, _ = write_frame_obligations(repo, tabs, ["exceptions:best_match", "exceptions:by_relevance.relevance", "validators:validate",
@@ -975,7 +979,7 @@ class C04(Spec):
     def standins(self, root, tier):
         from pyvc import driver
         r = driver.rt_call("pyvc.rt_entry", {"cmd": "search", "root": root}, root, timeout=3000)
-        return [{"name": "entry-point-agreement", "scope": "12 keywords x half of the 80-value pool x a third of the instance pool x 4 drafts, plus nested anyOf/oneOf/false-schema cases and invalid schemas, with and without format checker; all four entry points, repeated calls",
+        return [history_standin(root, tier), {"name": "entry-point-agreement", "scope": "12 keywords x half of the 80-value pool x a third of the instance pool x 4 drafts, plus nested anyOf/oneOf/false-schema cases and invalid schemas, with and without format checker; all four entry points, repeated calls",
                  "cases": r["tried"], "failures": r["failures"], "replay_kind": "entry", "label": "bounded (not counted as proof)"}]
 
 
